@@ -68,7 +68,10 @@ class C39(E1Prop):
                         after.attempts[(x['batch_id'], x['job_id'], x['attempt_id'])]['end_time'] is not None for x in before.attempts.values())),
                                 ('late-unschedule-of-completed-attempt', a == 'L' and act.last_complete is not None),
                                 ('orphan-attempt-recorded', a == 'X' and len(after.attempts) > len(before.attempts)),
-                                ('instance-preempted-while-job-in-flight', a == 'P' and act.preempted_in_flight > 0)):
+                                ('instance-preempted-while-job-in-flight', a == 'P' and act.preempted_in_flight > 0),
+                                ('job-started-while-schedule_job-in-flight', a == 'Q' and act.started_in_flight > 0),
+                                ('job-private-path', a[0] == 'J' and act.jp_scheduled > 0),
+                                ('job-private-activation-timeout', a == 'Jtimeout' and act.jp_timeouts > 0)):
                     if cond and t not in res.tags:
                         res.tags.append(t)
                 if fail:
